@@ -85,6 +85,7 @@ func c04(args []string) int {
 		probes []string
 		conc   int
 		bound  int
+		src    string
 	}
 	var scs []sc
 	probeSets := [][]string{
@@ -102,7 +103,31 @@ func c04(args []string) int {
 			} else if tier == "thorough" {
 				b = 3
 			}
-			scs = append(scs, sc{ps, c, b})
+			scs = append(scs, sc{ps, c, b, ""})
+		}
+	}
+	// real checkers that share the context (sizes, imports, type queries) on programs made to collide, every
+	// order in which their goroutines can run; the reference is each checker alone on its own context
+	realSets := []struct {
+		names []string
+		src   string
+	}{
+		{[]string{"hugeParam", "rangeValCopy", "rangeExprCopy"}, c04SchedSizes},
+		{[]string{"rangeExprCopy", "rangeValCopy"}, c04SchedSizes},
+		{[]string{"truncateCmp", "hugeParam", "rangeValCopy"}, c04SchedSizes},
+		{[]string{"dupImport", "importShadow", "unlambda"}, c04SchedImports},
+		{[]string{"typeSwitchVar", "caseOrder", "sloppyTypeAssert"}, c04SchedImports},
+	}
+	for _, rs := range realSets {
+		for _, c := range []int{1, 2, 3} {
+			b := -1
+			if len(rs.names) > 2 && c > 1 {
+				b = 2
+				if tier == "thorough" {
+					b = 3
+				}
+			}
+			scs = append(scs, sc{rs.names, c, b, rs.src})
 		}
 	}
 	for _, pkg := range []string{"./cmd/go-critic", "./cmd/gocritic"} {
@@ -136,7 +161,7 @@ func c04(args []string) int {
 					Err   string      `json:"err"`
 					Panic string      `json:"panic"`
 				}
-				if err := rpc.Call(map[string]interface{}{"op": "sched", "args": s.probes, "DirDepth": s.conc, "FileDepth": s.bound}, &resp); err != nil || resp.Err != "" || resp.Panic != "" || resp.Sched.Err != "" {
+				if err := rpc.Call(map[string]interface{}{"op": "sched", "args": s.probes, "DirDepth": s.conc, "FileDepth": s.bound, "Src": s.src}, &resp); err != nil || resp.Err != "" || resp.Panic != "" || resp.Sched.Err != "" {
 					fmt.Fprintln(os.Stderr, "sched rpc:", err, resp.Err, resp.Panic, resp.Sched.Err)
 					os.Exit(2)
 				}
@@ -162,9 +187,13 @@ func c04(args []string) int {
 					ev.Sample(map[string]interface{}{"scenario": id, "schedule": r.Sample, "points": r.SamplePoints, "distinct_observations": len(r.Observations), "max_checkers_inside_WalkFile": r.MaxActive})
 				}
 				for _, v := range r.Violations {
-					ev.Violate(evidence.Violation{Key: fmt.Sprintf("%s|checkFile|%s", filepath.Base(pkg), v.Class), What: "an interleaving of the real checkFile violates: " + v.Class,
+					kind := "checkFile"
+					if s.src != "" {
+						kind = "checkFile+real-checkers"
+					}
+					ev.Violate(evidence.Violation{Key: fmt.Sprintf("%s|%s|%s", filepath.Base(pkg), kind, v.Class), What: "an interleaving of the real checkFile violates: " + v.Class,
 						Observed: fmt.Sprintf("%s schedule %v\nobserved: %s\nexpected: %s", id, v.Schedule, v.Observed, v.Expected),
-						Replay:   map[string]interface{}{"kind": "schedule", "binary": pkg, "probes": s.probes, "concurrency": s.conc, "schedule": v.Schedule}})
+						Replay:   map[string]interface{}{"kind": "schedule", "binary": pkg, "probes": s.probes, "concurrency": s.conc, "schedule": v.Schedule, "src": s.src}})
 				}
 			}(s)
 		}
@@ -192,6 +221,65 @@ func c04(args []string) int {
 }
 
 var c04mu sync.Mutex
+
+const c04SchedSizes = c02LocalTypes + `
+type wide [1024]int
+
+func viaParam(p wide) int {
+	type wide [2]int
+	var q [3]wide
+	n := 0
+	for _, v := range q {
+		n += v[0]
+	}
+	return n + p[0]
+}
+
+func cmp(x int64, y int32) bool {
+	type rec struct{ a [40]int }
+	var r rec
+	return int32(x) < y && r.a[0] == 0
+}
+
+func heavy(r struct{ a [200]int }) int {
+	type rec struct{ a [3]int }
+	for _, x := range []rec{{}} {
+		_ = x
+	}
+	return r.a[0]
+}
+`
+
+const c04SchedImports = `package b
+
+import (
+	"fmt"
+	f2 "fmt"
+	"os"
+	"strings"
+)
+
+func up(s string) string { return strings.ToUpper(s) }
+
+func use(fmt3 int, os2 fmt.Stringer) {
+	strings := func(s string) string { return s }
+	g := func(s string) string { return strings(s) }
+	fmt.Println(f2.Sprint(), os.Args, g("x"), fmt3)
+	switch v := os2.(type) {
+	case interface{}:
+		_ = v.(fmt.Stringer)
+	case fmt.Stringer:
+		_ = v
+	case nil:
+	}
+	switch os2.(type) {
+	case fmt.Stringer:
+		x := os2.(fmt.Stringer)
+		_ = x
+	}
+	_ = os2.(fmt.Stringer)
+}
+`
 
 func c04Analyzer(ev *evidence.Run, overlay, tier string, states, transitions *int) {
 	mcDir := filepath.Join(evidence.Root, "mc")
